@@ -103,10 +103,66 @@ pub fn is_valid_permutation(ndim: usize, permutation: &[usize]) -> (r: bool)
     ensures r == valid_perm(ndim as int, permutation@)
 { unimplemented!() }
 
+// ---------------------------------------------------------------- array_offsets (tensor.rs)
+/// Offset of the index `base` moved `i` steps along dimension `d`.
+pub open spec fn arr_off(base: Seq<usize>, strides: Seq<usize>, n: int, d: int, i: int) -> int {
+    dot(base.update(d, (base[d] + i) as usize), strides, n)
+}
+
+pub proof fn lemma_dot_update(index: Seq<usize>, strides: Seq<usize>, k: int, d: int, v: usize)
+    requires 0 <= d < index.len(), 0 <= k <= index.len(), k <= strides.len()
+    ensures dot(index.update(d, v), strides, k)
+        == dot(index, strides, k) + (if d < k { (v as int - index[d] as int) * (strides[d] as int) } else { 0 })
+    decreases k
+{
+    if k > 0 {
+        lemma_dot_update(index, strides, k - 1, d, v);
+        if d == k - 1 {
+            let a = v as int; let b = index[d] as int; let st = strides[d] as int;
+            assert(a * st == b * st + (a - b) * st) by (nonlinear_arith);
+        }
+    }
+}
+
+pub proof fn lemma_all_lt_update(index: Seq<usize>, shape: Seq<usize>, k: int, d: int, v: usize)
+    requires 0 <= d < index.len(), 0 <= k <= index.len(), k <= shape.len(), all_lt(index, shape, k), v < shape[d]
+    ensures all_lt(index.update(d, v), shape, k)
+    decreases k
+{
+    if k > 0 { lemma_all_lt_update(index, shape, k - 1, d, v); }
+}
+
+pub proof fn lemma_all_lt_at(index: Seq<usize>, shape: Seq<usize>, k: int, d: int)
+    requires 0 <= d < k <= index.len(), k <= shape.len(), all_lt(index, shape, k)
+    ensures index[d] < shape[d]
+    decreases k
+{
+    if d < k - 1 { lemma_all_lt_at(index, shape, k - 1, d); }
+}
+
+/// All facts array_offsets needs about its i-th result, in one place.
+pub broadcast proof fn lemma_arr_off_b(base: Seq<usize>, shape: Seq<usize>, strides: Seq<usize>, n: int, d: int, i: int)
+    requires
+        n == base.len(), n == shape.len(), n == strides.len(), 0 <= d < n, all_lt(base, shape, n),
+        0 <= i, base[d] + i < shape[d],
+    ensures
+        #![trigger arr_off(base, strides, n, d, i), all_lt(base, shape, n)]
+        arr_off(base, strides, n, d, i) == dot(base, strides, n) + i * (strides[d] as int),
+        0 <= i * (strides[d] as int),
+        all_lt(base.update(d, (base[d] + i) as usize), shape, n),
+        0 <= arr_off(base, strides, n, d, i) <= max_dot(shape, strides, n),
+{
+    let v = (base[d] + i) as usize;
+    lemma_dot_update(base, strides, n, d, v);
+    lemma_all_lt_update(base, shape, n, d, v);
+    lemma_dot_le_max(base.update(d, v), shape, strides, n);
+    assert(0 <= i * (strides[d] as int)) by (nonlinear_arith) requires 0 <= i, strides[d] >= 0;
+}
+
 // ---------------------------------------------------------------- code under contract
 pub mod code {
 use super::*;
-broadcast use {lemma_dot_le_max_b, lemma_dot_step_b};
+broadcast use {lemma_dot_le_max_b, lemma_dot_step_b, lemma_arr_off_b};
 
 impl<const N: usize> NdLayout<N> {
     //@extract kind=fn file=rten-tensor/src/layout.rs within="impl<const N: usize> NdLayout<N>" name=index_valid
@@ -136,6 +192,47 @@ impl<const N: usize> NdLayout<N> {
     //@|     r is Some ==> r.unwrap() as int == dot(index@, self.strides@, N as int)
     //@|         && r.unwrap() as int <= max_dot(self.shape@, self.strides@, N as int), // @ob:offset.exact_and_bounded
 }
+
+/// `Layout::size` / `Layout::stride` (default methods: `.get(dim).expect(..)` on the shape/stride
+/// arrays) and `LayoutExt::must_offset` (`self.offset(index).unwrap_or_else(|| panic!(..))`:
+/// a closure that panics, outside Verus' subset) are ASSUMED to return only for valid arguments,
+/// with the value of the corresponding entry / of `offset`. (must_offset's "panics when out of
+/// bounds" is additionally covered by the bounded U-tensor-ctor get/index harnesses.)
+impl<const N: usize> NdLayout<N> {
+    #[verifier::external_body]
+    fn size(&self, dim: usize) -> (r: usize)
+        ensures dim < N, r == self.shape@[dim as int]
+    { unimplemented!() }
+
+    #[verifier::external_body]
+    fn stride(&self, dim: usize) -> (r: usize)
+        ensures dim < N, r == self.strides@[dim as int]
+    { unimplemented!() }
+
+    #[verifier::external_body]
+    fn must_offset(&self, index: [usize; N]) -> (r: usize)
+        requires max_dot(self.shape@, self.strides@, N as int) <= usize::MAX
+        ensures all_lt(index@, self.shape@, N as int), r as int == dot(index@, self.strides@, N as int)
+    { unimplemented!() }
+}
+
+//@extract kind=fn file=rten-tensor/src/tensor.rs name=array_offsets
+//@| requires
+//@|     max_dot(layout.shape@, layout.strides@, N as int) <= usize::MAX,   // layout invariant
+//@|     dim < N, base[dim as int] < usize::MAX - M, layout.shape@[dim as int] >= base[dim as int] + M,   // the function's own assert!
+//@| ensures
+//@|     forall|i: int| 0 <= i < M ==> (#[trigger] r@[i]) as int == arr_off(base@, layout.strides@, N as int, dim as int, i)
+//@|         && all_lt(base@.update(dim as int, (base@[dim as int] + i) as usize), layout.shape@, N as int)
+//@|         && r@[i] as int <= max_dot(layout.shape@, layout.strides@, N as int), // @ob:array_offsets.offsets_of_in_bounds_indices
+//@loop 0
+//@| invariant
+//@|     0 <= i <= M, dim < N, all_lt(base@, layout.shape@, N as int),
+//@|     offset as int == dot(base@, layout.strides@, N as int), stride == layout.strides@[dim as int],
+//@|     base@[dim as int] + M <= layout.shape@[dim as int],
+//@|     max_dot(layout.shape@, layout.strides@, N as int) <= usize::MAX,
+//@|     forall|k: int| 0 <= k < M ==> offset as int + #[trigger] (k * (stride as int)) == arr_off(base@, layout.strides@, N as int, dim as int, k)
+//@|         && 0 <= k * (stride as int) && arr_off(base@, layout.strides@, N as int, dim as int, k) <= max_dot(layout.shape@, layout.strides@, N as int),
+//@|     forall|k: int| 0 <= k < i ==> (#[trigger] offsets@[k]) as int == arr_off(base@, layout.strides@, N as int, dim as int, k),
 } // mod code
 
 } // verus!
